@@ -344,7 +344,13 @@ class SStr(str):
     def __hash__(self):
         if self.is_concrete():
             return hash("".join(map(chr, self.cps)))
-        raise Inconclusive("hash() of a symbolic string (dict/set keyed by a symbolic string is not modelled)")
+        # a dict / set keyed by a symbolic string is not modelled: the path goes on with ONE sampled value of this string (added
+        # to the path condition); a violation found afterwards is replayed like any other, a pass on this path decides nothing
+        from symx import core as _core
+        en = _core._CUR[0]
+        if en is None:
+            raise Inconclusive("hash() of a symbolic string outside an exploration")
+        return hash(en.sample_str(self, "hash() of a symbolic string: dict/set keyed by it", prefer="xy01 "))
 
     def __str__(self):
         return self
